@@ -187,7 +187,7 @@ class Prop(common.PropertyCheck):
         # the fit stage alone on exact medians (thousands of bead sets with sizeable autofluorescence)
         yield {'k': 'fit_sweep', 'n': self.budget(5000, 40000), 'seed': rng.randrange(1 << 30)}
         # the same with only five subpopulations taking part (the brightest piled up at the detector limit or of unknown value): a fixed
-        # stream of single bead sets, so that a set the unchanged fit gets wrong is a finding identified by its index and seed
+        # stream of single bead sets, so that a set the fit gets wrong is identified by its index and seed
         fw = np.random.RandomState(424242)
         for i in range(3000):
             yield {'k': 'fit_sweep', 'n': 1, 'seed': int(fw.randint(1 << 30)), 'few': True, 'stream': 'fewfit', 'idx': i}
@@ -209,7 +209,7 @@ class Prop(common.PropertyCheck):
             af = r.uniform(0.3, 0.5) * math.exp(b) * rfi[0] ** m
             mef = np.exp(b) * rfi ** m - af
             if case.get('few'):
-                # only five of the subpopulations take part (the brightest piled up at the detector limit, values of others unknown); with three or four the unchanged fit itself is up to 16 % off in under 1 % of the sets, which is not judged here (DESIGN section 7)
+                # at most five of the subpopulations take part (the brightest piled up at the detector limit, values of others unknown); three sets of this stream were 11-12 % off before fix 18 (DESIGN section 7)
                 pool = K - 1 - int(r.randint(0, 2))          # the brightest one or two never take part
                 keep = sorted(r.choice(pool, size=min(pool, 5), replace=False).tolist())
                 rfi, mef = rfi[keep], mef[keep]
